@@ -313,6 +313,17 @@ def m3_trace(em, seed):
         fact("ListEqSum", abs(s_sum - s_stats) <= tol, as_list=s_stats, as_sum=s_sum, statistics=len(stats))
     attempt("ScoreUsingArrayEqScoreOfStats", score_paths)
 
+    def weighted_probe():
+        # statistics whose frame count is not the sum of their occupations (soft frame weights, pruned components,
+        # hand-made statistics): the score is normalised by the FRAMES t, x comes from the pooled n and F
+        wgt = float(r.uniform(0.3, 0.8))
+        soft = [make_stat(em, int(st.t), np.asarray(st.n) * wgt, np.asarray(st.sum_px) * wgt) for st in stats]
+        _, _, sc_w, scale_w, _ = oracle(mu, var, U, V, Dd, zv, yv, N * wgt, Fs * wgt, T)
+        s_w = float(mach.score(model, soft))
+        fact("ScoreNormalisedByFrames", abs(s_w - sc_w) <= 1e-8 * max(1.0, scale_w),
+             score=s_w, formula=sc_w, frames=T, occupation=float(np.sum(N) * wgt))
+    attempt("ScoreNormalisedByFrames", weighted_probe)
+
     def x_paths():
         x = np.asarray(mach.estimate_x([ubm.acc_stats(a) for a in arrays]), dtype=float)
         fact("XSolvesSystem", x.shape == x0.shape and np.max(np.abs(x - x0)) <= 1e-8 * max(1.0, xscale),
